@@ -253,6 +253,18 @@ def scenarios(tier: str) -> tuple[list[C06Scenario], list[C06Scenario]]:
             base.append(sc)
             if variant in ('foreign', 'foreign2', 'toggle', 'toggle-quiet') and d1 != ['perm'] and d2 != ['temp', 'ok']:
                 deep.append(sc)
+    # one function with several decorators (@kopf.on.create / update + @kopf.on.delete): its handlers share one id. The object is deleted
+    # while the creation / update cycle that the namesake took part in is still unfinished (a sibling waits for its retry)
+    for first, lc in itertools.product(('create', 'update'), ('asap', 'all_at_once', 'one_by_one')):
+        for d_script in (['ok'], ['temp', 'ok']):
+            handlers = [dict(id='fn', on=first, script=['ok']), dict(id='sib', on=first, script=['temp', 'temp', 'ok']),
+                        dict(id='fn', on='delete', script=d_script)]
+            if first == 'update':
+                handlers = [dict(id='c1', on='create', script=['ok'])] + handlers
+                user = [(1.0, 'create', 'a'), (10.0, 'spec', 'a', 2), (11.0, 'delete', 'a')]
+            else:
+                user = [(1.0, 'create', 'a'), (2.0, 'delete', 'a')]
+            base.append(C06Scenario(handlers=handlers, user=user, lifecycle=lc, settings=st, horizon=50.0, variant='namesakes'))
     # F2: daemons and a sleeping timer
     for reaction, backoff, timeout in list(itertools.product(['obeys', 'cancel', 'ignore'], [None, 2.0], [None, 3.0])) + \
             [('cancel', 3.0, 2.0), ('ignore', 3.0, 2.0), ('cancel', 2.0, 2.0),      # + a backoff not shorter than the timeout
